@@ -26,3 +26,13 @@ fn stub_unsigned_abs() {
     let spec: u128 = if x < 0 { (-(x as i128)) as u128 } else { x as u128 };
     assert_eq!(x.unsigned_abs() as u128, spec);
 }
+// put_be16 / put_be32 (vx/units/proto.py): `x.to_be_bytes()` written into a buffer reads back as x under the shift-or spec
+#[kani::proof]
+fn stub_to_be_bytes_inverse() {
+    let x: u32 = kani::any();
+    let b = x.to_be_bytes();
+    assert_eq!(((b[0] as u32) << 24) | ((b[1] as u32) << 16) | ((b[2] as u32) << 8) | (b[3] as u32), x);
+    let y: u16 = kani::any();
+    let c = y.to_be_bytes();
+    assert_eq!(((c[0] as u16) << 8) | (c[1] as u16), y);
+}
